@@ -9,6 +9,7 @@ Oracle: reference graph model.
 """
 
 import itertools
+import os
 
 from hypothesis import strategies as st
 
@@ -289,30 +290,52 @@ def run_case(case):
     return Result(sorted(labels) or ["forest"], nontrivial)
 
 
-def enum_tier(tier, seed, stats):
-    """All parent maps x start-time orders for n <= 3 (quick) / 4 (thorough)."""
-    nmax = 3 if tier == "quick" else 4
+def _weak_orders(n):
+    """Start-time vectors up to order isomorphism (ties included)."""
+    return [t for t in itertools.product(range(n), repeat=n) if set(t) == set(range(max(t) + 1))]
+
+
+def _enum_chunk(args):
+    n, pp = args
+    pids = POOL[:n]
     total = 0
+    keys = set()
+    for starts in _weak_orders(n):
+        rows = [(pids[i], pp[i], starts[i], False) for i in range(n)]
+        for me in pids:
+            try:
+                labels = check_table(rows, me)
+            except Violation as v:
+                return ("fail", {"enum": rows, "caller": me}, v.clause, str(v.detail))
+            total += 1
+            key = labels & {"self-loop", "unlisted-parent", "older-child", "cycle2", "cycle3", "cycle4"}
+            if key:
+                keys.add("enum|" + ",".join(sorted(key)) + "|n=%d" % n)
+    return ("ok", total, keys)
+
+
+def enum_tier(tier, seed, stats):
+    """ALL parent maps x start-time orders (up to order isomorphism, ties
+    included) x callers for n <= 3 (quick) / n <= 4 (thorough)."""
+    import multiprocessing
+
+    nmax = 3 if tier == "quick" else 4
+    jobs = []
     for n in range(1, nmax + 1):
         pids = POOL[:n]
-        parents = [pids + [99999, 0]] * n
-        for pp in itertools.product(*parents):
-            for starts in itertools.product(range(n), repeat=n):
-                rows = [(pids[i], pp[i], starts[i], False) for i in range(n)]
-                for me in pids:
-                    case = {"enum": rows, "caller": me}
-                    try:
-                        labels = check_table(rows, me)
-                    except Violation as v:
-                        stats.fail(case, v)
-                        stats.notes["enum_exhaustive"] = False
-                        return
-                    total += 1
-                    key = labels & {"self-loop", "unlisted-parent", "older-child",
-                                    "cycle2", "cycle3", "cycle4"}
-                    stats.record(case, Result(
-                        ["enum"], ("enum|" + ",".join(sorted(key)) + "|n=%d" % n) if key else None),
-                        keep_sample=False)
+        for pp in itertools.product(*([pids + [99999, 0]] * n)):
+            jobs.append((n, pp))
+    total = 0
+    with multiprocessing.get_context("fork").Pool(min(16, os.cpu_count() or 1)) as pool:
+        for res in pool.imap_unordered(_enum_chunk, jobs, chunksize=8):
+            if res[0] == "fail":
+                stats.fail(res[1], Violation(res[2], res[3]))
+                stats.notes["enum_exhaustive"] = False
+                return
+            total += res[1]
+            stats.evaluations += res[1]
+            stats.labels["enum"] += res[1]
+            stats.nontrivial |= res[2]
     stats.notes["enum_tables_x_callers"] = total
     stats.notes["enum_exhaustive_up_to_n"] = nmax
 
